@@ -1,5 +1,6 @@
 PROP = {
     "thm": "Umya.Thm.C12",
+    "frame_shared_state": True,
     "harness": "c12",
     "level": "proof",
     "stateful": True,
